@@ -10,7 +10,9 @@ TECHNIQUE = ("static analysis: value-preserving CHAIN slices from every decoder 
              "from_map primitive table, SAME-SOURCE slices of the per-request context, census of statics and interior-mutable shared state")
 LEVEL_TEXT = ("Decides on the type-checked MIR of the current tree: (R1) every decoder is fed the request's own data unmodified — path: rqctx.endpoint.variables -> from_map; "
               "query: uri().query() (only unwrap_or(\"\")) -> serde_urlencoded::from_str; typed bodies: the buffered body bytes -> serde_json / form_urlencoded; raw: the same bytes frozen; "
-              "stream: each yielded chunk is the frame's data payload; accumulation: put(chunk) into an initially empty buffer in arrival order — and each extractor wraps exactly the decoder's output; "
+              "stream: each yielded chunk is the frame's data payload; accumulation (written as a try_fold or as a `while let Some(chunk) = s.try_next().await?` loop): one append site puts each element of this "
+              "body's stream whole into an initially empty buffer, every pulled element is appended before the next pull, nothing else writes the buffer, and the buffer is what is returned "
+              "— and each extractor wraps exactly the decoder's output (the Ok side of the decoder's Result, however the error side is spelled); "
               "any other operation on such a chain (case change, trim, slicing, re-encoding, a constant) is a violation; (R2) in from_map every deserialize_<T> parses the raw string as T "
               "and hands the parsed value to visit_<T> for the same T (12 primitives), string kinds pass as_value() to visit_str unmodified, and MapValue::as_value returns the stored string; "
               "(R3) the one RequestContext aggregate is built from this invocation's request, peer address, request id and lookup result, RequestInfo::new copies method/uri/version/headers/"
@@ -30,7 +32,7 @@ EXPLANATION = ("Static rules over MIR facts of the current /repo tree. CHAIN: ba
                "Service::call down to the handler. CENSUS: statics (mutability, Freeze) and a recursive walk of field types reachable from the shared state for interior-mutability markers.")
 TRUSTED = ["rustc nightly MIR construction + const evaluation", "mirfacts extractor", "rules/engine.py slices",
            "serde / serde_json / serde_urlencoded / form_urlencoded / serde_path_to_error / multer / percent-encoding decode what they are given faithfully",
-           "hyper/http-body: Frame::into_data returns the received payload; BodyExt::frame yields frames in arrival order; TryStreamExt::try_fold folds in stream order",
+           "hyper/http-body: Frame::into_data returns the received payload; BodyExt::frame yields frames in arrival order; TryStreamExt::try_fold folds / try_next yields in stream order",
            "BufMut::put appends; BytesMut::freeze / Clone / Deref / Into / From conversions are value-preserving"]
 
 # value-preserving plumbing, narrower than lib.PLUMBING where a conversion could change the value
@@ -833,6 +835,8 @@ _U16_AS_U8 = """    fn deserialize_u16<V>(self, visitor: V) -> Result<V::Value, 
         })
     }"""
 
+from .c10 import DECODE_HELPERS_VARIANT as _DECODE_HELPERS_VARIANT  # noqa: E402  (the same refactoring, replayed under both properties)
+
 _FOLD = """        self.into_stream()
             .try_fold(BytesMut::new(), |mut out, chunk| {
                 out.put(chunk);
@@ -921,6 +925,7 @@ SELFTEST = [
     {"name": "de-value-map-err-and-try", "kind": "benign",
      "edits": [("dropshot/src/from_map.rs", _DE_VALUE_MATCH, _DE_VALUE_TRY)],
      "why": "behaviour-preserving: in every deserialize_<T> the match on parse() is spelled `parse().map_err(..)?` followed by the visit call"},
+    _DECODE_HELPERS_VARIANT,
     {"name": "accumulate-by-while-let-loop", "kind": "benign",
      "edits": [("dropshot/src/extractor/body.rs", _FOLD, _LOOP % "out.put(chunk);")],
      "why": "behaviour-preserving: try_fold(BytesMut::new(), ..) spelled as a pinned stream drained by `while let Some(chunk) = s.try_next().await?`"},
